@@ -243,6 +243,51 @@ fn check_module_versions(env: &CliEnv, rep: &mut Report) {
     rep.obs("module-versions-checked");
 }
 
+/// `--module-versions` combined with other options (a `--partial` list, `--quiet`, `--json`) still lists every known
+/// check exactly once (statement: "the module-version listing names every known check once").
+fn check_module_versions_with_options(env: &CliEnv, rng: &mut Rng, rep: &mut Report) {
+    let lib: Vec<String> = cwe_checker_lib::get_modules().iter().map(|m| m.name.to_string()).collect();
+    let mut names = lib.clone();
+    rng.shuffle(&mut names);
+    names.truncate(rng.range_usize(0, 3));
+    let mut extra: Vec<String> = Vec::new();
+    match rng.below(4) {
+        0 => extra.extend(["--partial".to_string(), names.join(",")]),
+        1 => extra.extend(["--partial".to_string(), names.join(","), "--json".to_string()]),
+        2 => extra.push("--quiet".to_string()),
+        _ => extra.push("--json".to_string()),
+    }
+    let out = std::process::Command::new(&env.bin)
+        .arg("--module-versions")
+        .args(&extra)
+        .env("XDG_CONFIG_HOME", &env.xdg)
+        .env("RUST_BACKTRACE", "0")
+        .env("RUST_LIB_BACKTRACE", "0")
+        .stdin(std::process::Stdio::null())
+        .output();
+    rep.eval();
+    let case = || json!({"kind": "module-versions-with-options", "extra": extra});
+    let Ok(out) = out else {
+        rep.inconclusive("module-versions:spawn-failed");
+        return;
+    };
+    if !out.status.success() {
+        // rejecting the combination is not covered by the statement; only a listing that is printed is judged
+        rep.obs("module-versions-with-options:rejected");
+        return;
+    }
+    let listed = parse_module_versions(&String::from_utf8_lossy(&out.stdout));
+    for n in &lib {
+        let c = listed.iter().filter(|m| &m.0 == n).count();
+        if c != 1 {
+            rep.violation("module-versions:with-options:count", None, format!("`--module-versions {}` lists check {n} {c} times (expected once); listed: {:?}", extra.join(" "), listed.iter().map(|m| m.0.clone()).collect::<Vec<_>>()), case(), 1);
+            break;
+        }
+    }
+    rep.obs("module-versions-with-options-checked");
+    rep.nontrivial(hash_str(&extra.join(" ")) ^ 0x4d56);
+}
+
 fn run(cfg: &Cfg) -> Report {
     let env = match cli_env(cfg) {
         Ok(e) => e,
@@ -257,6 +302,9 @@ fn run(cfg: &Cfg) -> Report {
     let mut rep = par_shards(cfg, "c22", shards, |idx, rng, rep| {
         if idx == 0 {
             check_module_versions(&env, rep);
+        }
+        if idx % 8 == 0 {
+            check_module_versions_with_options(&env, rng, rep);
         }
         for _ in 0..per_shard {
             if cfg.elapsed_s() > deadline_s(cfg) {
@@ -288,6 +336,13 @@ fn replay(cfg: &Cfg, case: &Value) -> Report {
             return rep;
         }
     };
+    if case["kind"] == json!("module-versions-with-options") {
+        let mut rng = Rng::derive(cfg.seed, "c22-mv-replay", 0);
+        for _ in 0..40 {
+            check_module_versions_with_options(&env, &mut rng, &mut rep);
+        }
+        return rep;
+    }
     if case["kind"] == json!("module-versions") {
         check_module_versions(&env, &mut rep);
         return rep;
